@@ -133,7 +133,7 @@ def read_source_facts(chk):
         facts["cra_variant"] = None
     if facts.get("cra_variant") is None:
         chk.broke("ChineseRemainder<Ring,Domain,true>::operator() no longer has a shape the model knows", str(facts.get("cra_calls")))
-        facts["cra_variant"] = "reduce"
+        facts["cra_variant"] = "fixed"
     return facts
 
 
@@ -352,10 +352,11 @@ def main(tier, replay=None):
     chk = vf.Check("C14", tier, "proof")
     rng = vf.Rng(chk.seed)
     chk.cov["trusted_base"] = [
-        "Coq 8.16.1 kernel (no native_compute; vm_compute only for the two refutation witnesses)",
+        "Coq 8.16.1 kernel (no native_compute; vm_compute only for the refutation witnesses and the Examples)",
         "extraction: ExtrOcamlBasic only; Z/positive/nat kept as extracted inductives; OCaml 4.13.1; zarith only for text I/O in harness/zio.ml",
         "residue-domain operations (Modular<T>::init/convert/axpy/sub/mul/inv, Integer::mod/mulin/addin, gcdext) are taken as exact "
-        "arithmetic mod p (properties C01-C04); validated here by the correspondence run on Modular<double|int64_t|uint64_t|int32_t|Integer>",
+        "arithmetic mod p (properties C01-C04); validated here by the correspondence run on Modular<double|float|int32_t|int64_t|uint32_t|uint64_t|Integer|ruint<7>|Log16>, Montgomery<int32_t>",
+        "not proved, only correspondence- and oracle-tested: RNSsystemFixed (product tree), uniqueness half of the polynomial CRT, ModularBalanced residue domains (oracle only)",
         "checks/C14.py: reads the IntRNSsystem copy map and the functor body shape from the source by regular expressions",
         "harness/c14_rns.C, harness/c14_fixedcopy.C, checks/C14.py (generators, python CRT / Lagrange oracles)",
         "g++ 12 / x86-64 for the implementation side",
@@ -540,7 +541,7 @@ def main(tier, replay=None):
         return chk.finish()
     mout = None
     if drv:
-        rc, mout, merr = run_par(drv, [c["model"] for c in cases], timeout=1500)
+        rc, mout, merr = run_par(drv, [c["model"] for c in cases], nproc=(6 if quick else 10), timeout=1700)
         if rc != 0 or len(mout) != len(cases):
             chk.broke("model driver failed (rc=%s, %d/%d lines)" % (rc, len(mout), len(cases)), merr)
             mout = None
@@ -656,15 +657,14 @@ def main(tier, replay=None):
             chk.fail_input("harness output", "unparsable", c, None, il, str(ex))
         if i % 211 == 0:
             chk.sample({"impl_case": c["impl"][:300], "impl_out": il[:300]})
-        if mout is not None and c["model"] != "skip":
+        # tie: implementation vs extracted model.  A case on which the implementation already disagrees with the oracle is
+        # reported as a failing input only (no additional correspondence break for the same case).
+        if mout is not None and c["model"] != "skip" and spec_ok:
             ncorr += 1
             mtoks = [t for t in mout[i].split() if t != "|"]
             if mtoks != itoks:
-                # the implementation is already reported as a failing input and the model agrees with the oracle:
-                # the difference IS that failing input (a defect below the modelled code), not a broken tie
-                if not (not spec_ok and exp_toks is not None and mtoks == exp_toks):
-                    broke("correspondence model/implementation differs on [%s]: model=%s impl=%s" % (c["impl"][:400], mout[i][:300], il[:300]))
-            elif spec_ok and exp_toks is not None and mtoks != exp_toks:
+                broke("correspondence model/implementation differs on [%s]: model=%s impl=%s" % (c["impl"][:400], mout[i][:300], il[:300]))
+            elif exp_toks is not None and mtoks != exp_toks:
                 broke("extracted model differs from the oracle on [%s]: model=%s" % (c["impl"][:400], mout[i][:300]))
     if nbroke > 20:
         chk.broke("... %d more correspondence differences" % (nbroke - 20))
@@ -692,7 +692,7 @@ def main(tier, replay=None):
                                    V, l, "copy-constructed fixed system differs from the CRT value")
 
     chk.cov["rule"] = ("systems obtained by every history (fresh, reuse, copy of cold/warm/copy, assignment over cold/warm, setPrimes over cold/warm, "
-                       "templated constructor) x residue domains (Integer with Integer/int64/uint64 residue containers; Modular<double|int64_t|uint64_t|int32_t|Integer>) "
+                       "templated constructor) x residue domains (Integer with Integer/int64/uint64 residue containers; Modular<double|float|int32_t|int64_t|uint32_t|uint64_t|Integer|ruint<7>|Log16>, Montgomery<int32_t>, ModularBalanced<int64_t|double>) "
                        "x pairwise coprime moduli lists of length 1..%d (small primes, tiny composites, prime powers, random words, values at maxCardinality, multi-limb; shuffled/descending) "
                        "x residue vectors (all 0, all p-1, mixed edges, random; out-of-range residu[i>=1] for IntRNSsystem) ; functor on (M,D,A,e) incl. D at maxCardinality, multi-limb M; "
                        "Poly1CRT over GF(p), p in {2,3,5,7,101,65521,2^31-1,2^32-5,...}; non-trivial = at least two moduli and value > 1; distinct = (kind, domain, history, moduli, residues)"
@@ -700,7 +700,7 @@ def main(tier, replay=None):
     chk.cov["traces_validated_against_impl"] = ncorr
     chk.cov["distribution"] = dist
     chk.cov["source_facts"] = {k: (v if isinstance(v, (str, list)) else str(v)) for k, v in facts.items()}
-    applicable = {"copy": "C14_int_copy_as_coded_refuted" if facts["cksrc"] == "primes" else "C14_int_history_independent",
-                  "functor": "C14_functor_range_refuted + C14_functor_congruences" if facts["cra_variant"] == "reduce" else "C14_functor_repaired_canonical"}
+    applicable = {"copy": "C14_int_copy_from_primes_refuted" if facts["cksrc"] == "primes" else "C14_int_history_independent + C14_int_end_to_end",
+                  "functor": "C14_functor_unrepaired_range_refuted + C14_functor_unrepaired_congruent" if facts["cra_variant"] == "reduce" else "C14_functor_canonical"}
     chk.cov["theorems_applicable_to_current_source"] = applicable
     return chk.finish()
